@@ -434,6 +434,18 @@ int main()
             });
             out("MV " + (e.empty() ? std::string("ok") : "!" + e));
         }
+        else if (c == "MOVEA")
+        {
+            // move-ASSIGN into another (already used) parser object, destroy the old one
+            st.last.reset();
+            std::string e = guarded([&] {
+                auto q = std::make_unique<no::parser>("other", "about");
+                q->toggle("leftover");
+                *q = std::move(*st.p);
+                st.p = std::move(q);
+            });
+            out("MV " + (e.empty() ? std::string("ok") : "!" + e));
+        }
         else if (c == "SETENV")
         {
             auto n = unhex(w[1]);
